@@ -6,6 +6,7 @@ generated from; exported names, arities, argument names and sparsity tables are 
 compile with gcc -Wall -Werror; the compiled object is run against CasADi's VM at random points as a check of
 the C parser itself (not as the verdict)."""
 from __future__ import annotations
+from ..harness import StructureChanged
 import ctypes
 import itertools
 import os
@@ -323,7 +324,7 @@ def job(idx, sname, opts, tier, seed):
             try:
                 cf = CFile(text)
             except CParseError as e:
-                raise HarnessError(f"{hname}: {e}")
+                raise StructureChanged(f"{hname}: {e}")
             extra = sorted(set(cf.exported) - set(expected))
             if extra:
                 recs.append(dict(label=f"{fname}:extra_functions", status="refuted", harness=hname,
